@@ -13,11 +13,24 @@ class _DefaultGraph:
 DefaultGraph = _DefaultGraph()
 
 
+def _plain_str(value: str | None) -> str | None:
+    """
+    Return the text of a str subclass as an exact str.
+
+    Subclasses such as rdflib.URIRef compare and hash on their own terms
+    (URIRef("x") != "x"), so the same IRI given once as a vocabulary constant and
+    once as plain text would be two different terms and two lookup entries.
+    """
+    if isinstance(value, str) and type(value) is not str:
+        return str(value)
+    return value
+
+
 class BlankNode:
     """Class for blank nodes, storing BN's identifier as a string."""
 
     def __init__(self, identifier: str) -> None:
-        self._identifier: str = identifier
+        self._identifier: str = _plain_str(identifier)  # type: ignore[assignment]
 
     def __str__(self) -> str:
         return f"_:{self._identifier}"
@@ -38,7 +51,7 @@ class IRI:
     """Class for IRIs, storing IRI as a string."""
 
     def __init__(self, iri: str) -> None:
-        self._iri: str = iri
+        self._iri: str = _plain_str(iri)  # type: ignore[assignment]
 
     def __str__(self) -> str:
         return f"<{self._iri}>"
@@ -68,9 +81,9 @@ class Literal:
     def __init__(
         self, lex: str, langtag: str | None = None, datatype: str | None = None
     ) -> None:
-        self._lex: str = lex
-        self._langtag: str | None = langtag
-        self._datatype: str | None = datatype
+        self._lex: str = _plain_str(lex)  # type: ignore[assignment]
+        self._langtag: str | None = _plain_str(langtag)
+        self._datatype: str | None = _plain_str(datatype)
 
     def __str__(self) -> str:
         suffix = ""
